@@ -33,7 +33,11 @@ def main():
         res = {}
         for p in [pid] + extra:
             t0 = time.time()
+            ev = "/verif/evidence/%s.json" % p          # evidence must come from runs on the unchanged tree: keep it
+            keep = open(ev).read() if os.path.exists(ev) else None
             rc, o = sh(["./check", p, "--tier", "quick"], cwd="/verif")
+            if keep is not None:
+                open(ev, "w").write(keep)
             v = [l for l in o.splitlines() if l.startswith("VIOLATION") or l.startswith("KNOWN")]
             kinds = []
             for l in v:
